@@ -5,6 +5,7 @@ CONSTANTS
   Width = 3
   Foreigns = FALSE
   Wraps = TRUE
+  RefWraps = FALSE
   WrapMax = 2
   ForeignVals <- ForeignValsQuick
   ForeignBase <- ForeignBaseQuick
